@@ -84,12 +84,26 @@ pub fn check_walk(
     let lacking: Vec<_> = want.errors.difference(&got_err).cloned().collect();
     // the recorded defect: a Missing entry nobody imports (a root or a
     // configured import) is dropped when dynamic imports are followed
+    // ... "nobody imports": no dependency of any visited module leads to it
+    let imported_by_a_visited_module = |u: &ModuleSpecifier| {
+      want.yielded.iter().any(|m| {
+        g.get(m).is_some_and(|m| {
+          // (through an edge the walk follows under this graph kind)
+          let code = o.kind != GraphKind::TypesOnly;
+          let types = o.kind != GraphKind::CodeOnly;
+          m.dependencies().values().any(|d| {
+            (code && d.get_code().is_some_and(|t| g.resolve(t) == u)) || (types && d.get_type().is_some_and(|t| g.resolve(t) == u))
+          })
+          // (a module's own types dependency - @ts-self-types, x-typescript-types - is no import site either: part of the recorded finding)
+        })
+      })
+    };
     let only_unreferenced_missing = extra.is_empty()
       && o.follow_dynamic
       && lacking.iter().all(|k| {
         k.strip_prefix("slot:").is_some_and(|s| {
           let u = url(s);
-          matches!(g.try_get(&u), Err(e) if matches!(e.as_kind(), deno_graph::ModuleErrorKind::Missing { .. }))
+          matches!(g.try_get(&u), Err(e) if matches!(e.as_kind(), deno_graph::ModuleErrorKind::Missing { .. })) && !imported_by_a_visited_module(&u)
         })
       });
     run.violate(
